@@ -646,9 +646,11 @@ def run(ctx: Ctx) -> None:
             meta.append((mi, off, wae))
     inh_pk, inh_jobs = inherited_jobs(ctx)
     rex_pk, rex_jobs = reexport_jobs(ctx)
-    allres = run_many(jobs + inh_jobs + rex_jobs)          # one pool for all kinds of run
+    sp_am, sp_cm, sp_jobs = special_jobs(ctx)
+    allres = run_many(jobs + inh_jobs + rex_jobs + sp_jobs)          # one pool for all kinds of run
     results, inh_results = allres[:len(jobs)], allres[len(jobs):len(jobs) + len(inh_jobs)]
-    rex_results = allres[len(jobs) + len(inh_jobs):]
+    rex_results = allres[len(jobs) + len(inh_jobs):len(jobs) + len(inh_jobs) + len(rex_jobs)]
+    sp_results = allres[len(jobs) + len(inh_jobs) + len(rex_jobs):]
 
     lit_req, lit_impl, lit_pay = [], [], []
     doc_req, doc_impl, doc_pay = [], [], []
@@ -773,6 +775,7 @@ def run(ctx: Ctx) -> None:
                          f"moving the module down by {o1 - o0} lines does not move every reported line by {o1 - o0}: {diff}")
     stream_inherited(ctx, inh_pk, inh_jobs, inh_results)
     stream_reexported(ctx, rex_pk, rex_jobs, rex_results)
+    stream_special(ctx, sp_am, sp_cm, sp_results)
     ctx.compare("literal", lit_req, lit_impl, lit_pay)
     ctx.compare("reports", doc_req, doc_impl, doc_pay)
     ctx.compare("report-arith", ar_req, ar_impl, ar_pay)
@@ -953,7 +956,8 @@ def oracle_er(ctx: Ctx, inp, fmt: str, doc, exp, uniq, span) -> None:
 def oracle_exit(ctx: Ctx, inp, mod, res, entries, wae: bool) -> None:
     """with -W: 3 iff something was reported; without: 2 iff some docstring could not be parsed, else 0"""
     nreports = len(stdout_reports(res["stdout"]))
-    bad = any(k.startswith("E") for _, k in stdout_reports(res["stdout"]))
+    # "could not be parsed" = pydoctor printed `bad docstring: …` (markup errors, and type expressions that do not parse)
+    bad = any(k[0] in "EW" for _, k in stdout_reports(res["stdout"]))
     rc = res["rc"]
     counted_msgs = [e["msg"][:120] for e in res["log"] if e["t"] == "m" and e["counted"]]
     if wae:
@@ -1343,6 +1347,164 @@ def stream_sys_api(ctx: Ctx) -> None:
         driver.get_system, driver.make = o_gs, o_make
     ctx.compare("sys-api", reqs, impls, pay)
     ctx.count("sys-api", len(reqs))
+
+
+# --------------------------------------------------------------------------- round 3: attribute documented twice; continuation lines end to end
+
+def gen_attr_module(rng, fmt: str) -> Dict[str, Any]:
+    """a class whose attributes are documented by @ivar fields of the class docstring, by their own docstring, or both"""
+    X = " L{%s}" if fmt == "e" else " `%s`"
+    iv = "@ivar %s:" if fmt == "e" else ":ivar %s:"
+    n = [0]
+
+    def name():
+        n[0] += 1
+        return "zq%d" % n[0]
+    lines = ["# attr"] * rng.randint(0, 4) + ["class C:"]
+    attrs = []
+    for k in range(3):
+        field, own = rng.choice([(True, False), (False, True), (True, True), (True, True)])
+        attrs.append({"name": "a%d" % k, "field": field, "own": own, "inst": rng.random() < 0.5})
+    csl = len(lines) + 1
+    doc = ['    ' + '"' * 3, "    Class doc."] + ["    More text."] * rng.randint(0, 2) + [""]
+    for a in attrs:
+        if a["field"]:
+            a["fname"] = name()
+            a["fraw"] = len(doc)
+            doc.append("    " + iv % a["name"] + " from the class" + X % a["fname"])
+            if rng.random() < 0.3:
+                doc.append("        continued.")
+    doc.append('    ' + '"' * 3)
+    lines += doc
+    body_inst = []
+    for a in attrs:
+        tgt = lines if not a["inst"] else body_inst
+        ind = "    " if not a["inst"] else "        "
+        tgt += [ind + "# c"] * rng.randint(0, 2)
+        tgt.append(ind + ("%s = 1" % a["name"] if not a["inst"] else "self.%s = 1" % a["name"]))
+        if a["own"]:
+            a["oname"] = name()
+            own = [ind + '"' * 3, ind + "Own doc."] + ([""] if rng.random() < 0.5 else []) + [ind + "Own text" + X % a["oname"], ind + '"' * 3]
+            a["_own"] = (tgt, len(tgt), own)
+            tgt += own
+    if body_inst:
+        base = len(lines) + 1
+        lines.append("    def __init__(self):")
+        lines += body_inst
+    # physical positions
+    for a in attrs:
+        if a["own"]:
+            tgt, at, own = a["_own"]
+            start = (at if tgt is lines else len(lines) - len(body_inst) + at) + 1
+            a["osl"] = start
+            a["oraw"] = next(i for i, l in enumerate(own) if a["oname"] in l)
+            # first line of the paragraph holding the reference (epytext reports that one)
+            a["opara"] = a["oraw"] if own[a["oraw"] - 1].strip() == "" else a["oraw"] - 1
+            del a["_own"]
+    return {"fmt": fmt, "source": "\n".join(lines) + "\n", "csl": csl, "attrs": attrs}
+
+
+def gen_continuation_module(rng, fmt: str) -> Dict[str, Any]:
+    """docstrings with backslash-newline and \\n escapes before the planted cross-reference: outside the property's
+    quantifier (pydoctor documents the approximation); the model must still predict the line, and the divergence from
+    the physical line must be exactly (continuations - escapes) before it"""
+    X = " L{%s}" if fmt == "e" else " `%s`"
+    lines, docs = [], []
+    for k in range(rng.randint(1, 3)):
+        lines += [""] * rng.randint(0, 2) + ["def f%d(a):" % k]
+        sl = len(lines) + 1
+        conts = escs = 0
+        first = '    ' + '"' * 3 + "Intro words"
+        body = [first]
+        for _ in range(rng.randint(1, 4)):
+            joint = rng.choice(["nl", "cont", "cont", "esc+cont"])
+            if joint == "cont":
+                body[-1] += " \\"
+                conts += 1
+            elif joint == "esc+cont":
+                body[-1] += "\\n\\"
+                conts += 1
+                escs += 1
+            body.append("    more words")
+        nm = "zq%d" % k
+        body += ["", "    Text" + X % nm + ".", '    ' + '"' * 3]
+        xline = len(lines) + len(body) - 1
+        lines += body + ["    return a"]
+        docs.append({"name": "m.f%d" % k, "sl": sl, "xref": nm, "phys": xline, "conts": conts, "escs": escs})
+    return {"fmt": fmt, "source": "\n".join(lines) + "\n", "docs": docs}
+
+
+def special_jobs(ctx: Ctx):
+    rng = ctx.rng
+    import random
+    fixed = random.Random("C16-corpus-special")
+    am = [gen_attr_module(fixed, "er"[i % 2]) for i in range(6)] + [gen_attr_module(rng, "er"[i % 2]) for i in range(50 if ctx.quick else 500)]
+    cm = [gen_continuation_module(fixed, "er"[i % 2]) for i in range(4)] + [gen_continuation_module(rng, "er"[i % 2]) for i in range(30 if ctx.quick else 300)]
+    jobs = [(m["source"], m["fmt"], False, ["m.C.%s" % a["name"] for a in m["attrs"]] + ["m.C"]) for m in am]
+    jobs += [(m["source"], m["fmt"], False, [d["name"] for d in m["docs"]]) for m in cm]
+    return am, cm, jobs
+
+
+def stream_special(ctx: Ctx, am, cm, results) -> None:
+    areq, aimp, apay = [], [], []
+    for m, res in zip(am, results[:len(am)]):
+        inp = {"source": m["source"], "docformat": FMTS[m["fmt"]], "warnings_as_errors": False}
+        if not isinstance(res["rc"], int) or "m.C" not in res["objs"]:
+            ctx.fail("run-aborted:attr", inp, f"driver.main ended with {res['rc']}")
+            continue
+        cdl = res["objs"]["m.C"]["dl"]
+        rep = {e["name"]: e for e in report_entries(res) if e["kind"] == "X"}
+        for a in m["attrs"]:
+            case = ("field+own" if a["field"] and a["own"] else "field" if a["field"] else "own")
+            ctx.count("attr-both:" + case)
+            ctx.case("attr|%s|%s|%s" % (m["fmt"], case, enc(m["source"])), True, None)
+            o = res["objs"].get("m.C." + a["name"])
+            if o is None:
+                ctx.disagree("object-missing", inp, a["name"], "missing")
+                continue
+            ops = (["f:%d" % (a["fraw"] - 1)] if a["field"] else []) + (["d:%d" % (a["osl"] + 1)] if a["own"] else [])
+            rendered = "field" if (a["field"] and a.get("fname") in rep) else "own" if (a["own"] and a.get("oname") in rep) else "none"
+            shown = a.get("fname") if rendered == "field" else a.get("oname")
+            okey = "opara" if m["fmt"] == "e" else "oraw"
+            off = (a["fraw"] - 1) if a["field"] else (a[okey] - 1)
+            areq.append("lineno attr %d %d %s" % (cdl, off, " ".join(ops)))
+            aimp.append("renders=%s line=%s dl=%d" % (rendered, rep[shown]["line"] if rendered != "none" else "-", o["dl"]))
+            apay.append({**inp, "attribute": a})
+            # direct oracle: a reported name must be on the line where it is written, in the docstring it is written in
+            for nm, where_line, what in ((a.get("fname"), m["csl"] + a.get("fraw", 0), "the @ivar field of the class docstring"),
+                                         (a.get("oname"), a.get("osl", 0) + a.get("opara" if m["fmt"] == "e" else "oraw", 0), "its own docstring")):
+                if nm and nm in rep and int(rep[nm]["line"]) != where_line:
+                    sig = "line:attr-field-and-inline-docstring" if case == "field+own" else "line:attr-%s:%+d" % (case, int(rep[nm]["line"]) - where_line)
+                    ctx.fail(sig, {**inp, "object": "m.C." + a["name"], "reported": int(rep[nm]["line"]), "expected": where_line, "problem": ["X", nm]},
+                             f"{FMTS[m['fmt']]}: '{nm}' written on line {where_line} in {what} of m.C.{a['name']} is reported on line {rep[nm]['line']}")
+    ctx.compare("attr-both", areq, aimp, apay)
+    creq, cimp, cpay = [], [], []
+    for m, res in zip(cm, results[len(am):]):
+        inp = {"source": m["source"], "docformat": FMTS[m["fmt"]], "warnings_as_errors": False}
+        if not isinstance(res["rc"], int):
+            ctx.fail("run-aborted:continuation", inp, f"driver.main ended with {res['rc']}")
+            continue
+        tree = ast.parse(m["source"])
+        vals = {nd.value.lineno: nd.value.value for nd in ast.walk(tree)
+                if isinstance(nd, ast.Expr) and isinstance(nd.value, ast.Constant) and isinstance(nd.value.value, str)}
+        rep = {e["name"]: e for e in report_entries(res) if e["kind"] == "X"}
+        for d in m["docs"]:
+            o = res["objs"].get(d["name"])
+            if o is None or d["xref"] not in rep:
+                ctx.disagree("continuation-e2e", inp, d["name"], "object or report missing")
+                continue
+            value = vals[d["sl"]]
+            raw = value[:value.index(d["xref"])].count("\n")
+            creq.append("lineno doc %s 0 %d %d %s X:%d:0" % (m["fmt"], o["ln"], d["sl"], enc(value), raw))
+            ncl = len(o["doc"].split("\n")) if o["doc"] else 0
+            cimp.append("dl=%d n=%d | %s:X" % (o["dl"], ncl, rep[d["xref"]]["line"]))
+            cpay.append({**inp, "object": d["name"]})
+            div = d["phys"] - int(rep[d["xref"]]["line"])
+            ctx.count("continuation-e2e:physical-minus-reported=%+d" % div)
+            ctx.case("cont|%s|%s" % (m["fmt"], enc(value)), True, None)
+            if div != d["conts"] - d["escs"]:        # theorem literal_line_divergence, observed on the real run
+                ctx.disagree("continuation-e2e", {**inp, "object": d["name"]}, "physical - reported = %d" % (d["conts"] - d["escs"]), "physical - reported = %d" % div)
+    ctx.compare("continuation-e2e", creq, cimp, cpay)
 
 
 # --------------------------------------------------------------------------- round 3: in-process streams
